@@ -109,6 +109,7 @@ int main(int argc, char **argv) {
     uint64_t seed = args.i("seed", 1);
     int lambda = args.i("lambda", 128);
     std::string level = args.s("level", "quick");   // lite | quick | full
+    if (args.i("prelude", 0)) { rng.reseed(seed * 4241 + 3); seed_library(seed * 4243 + 5); history_other_parameter_set(rng); }
     rng.reseed(seed * 1000003ull + lambda);
     seed_library(seed * 77 + lambda);
     World w;
